@@ -42,6 +42,25 @@ CLAIMS["C17"] = {
     "technique": "static analysis: registry strings resolved against the otData schema, spec-table completeness, CFG dominance",
 }
 
+CLAIMS["C01"] = {
+    "decides": "reader/writer API conformance of every converter and table method (no call to a non-existent OTTableReader/Writer method); otData schema well-formedness (types resolve, repeats/aux refer to earlier fields, format variants aligned); converter pairs (read/write primitive kinds, staticSize, fixed-point triples, offset widths, bit-layout siblings); per-class struct/sstruct layout equality of encode and decode sides for the 49 classes confirmed equal; every table class takes compile and decompile (and toXML/fromXML) from the same class; decoders store no one-shot iterators or str/bytes mixtures and build the same container types as fromXML; WOFF stored/compressed discriminator agrees; only audited glyph-id sorts in preWrite; pass-through of unloaded tables and DefaultTable byte identity.",
+    "design_ref": "DESIGN.md §3.1 F1-F3, F26, F29/F30, §4 C01",
+    "note": "Trusted: resolver/MRO model, schema loader, frozen F1_EQUAL instance list and audit tables in sa/rules/tables.py and otl.py. Not decided: any wrong value computed inside a well-formed pair; idempotence over all fonts.",
+    "technique": "static analysis: sibling agreement of encoder/decoder (layout signatures, primitive kinds), schema well-formedness, API-conformance lint over resolved receiver types, coarse type inference of stored values",
+}
+CLAIMS["C02"] = {
+    "decides": "field-level agreement of sibling encoders/decoders in the anchored modules: per-class struct/sstruct layout equality (armed instances), converter primitive pairs and bit layouts, schema keys used by preWrite/postRead, packed point/delta run constants, and for glyf components the flag-to-layout map of compile vs decompile, narrow-layout guards equal to struct code ranges, and identical transform-form tests in compile and toXML.",
+    "design_ref": "DESIGN.md §3.1 F1, F2, F4, §4 C02",
+    "note": "Trusted: as C01. Not decided: format-choice thresholds (cmap 4 segmentation, Coverage 1 vs 2, hmtx trimming, loca short/long), independent-reader equivalence.",
+    "technique": "static analysis: sibling agreement of encoder/decoder, flag-conditioned layout maps from path conditions, interval checks of guards against struct code ranges",
+}
+CLAIMS["C06"] = {
+    "decides": "offset packers do not mask values, truncating packers raise (not assert) on out-of-range offsets, the 16-bit arm converts struct.error to the overflow error and unknown sizes raise; the overflow handler retries only after a successful fix-up, otherwise changes state or re-raises and gives up on a repeated record; extension promotion wraps every subtable; splitters divide sequences by complementary slices/filters with the old half kept first, move dict entries atomically and recompute counts; the split registry matches lookupTypes; de-duplication compares and hashes the same content.",
+    "design_ref": "DESIGN.md §3.6 F23, §4 C06",
+    "note": "Trusted: CFG/guard extraction; lookupTypes loader. Not decided: that deduplicated or reordered object graphs decode identically; GPOS compact() regrouping (value level).",
+    "technique": "static analysis: effect/shape rules on packers, handler path analysis, conservation rules (complementary slices and filters) on splitters, registry-vs-schema agreement",
+}
+
 _PENDING = "check not built yet in this round (planned structural clauses in DESIGN.md §4); not claimed until its check exists"
 NOT_APPLICABLE = {
     "C05": "numeric equality of outlines/advances with independent rasterisers at every location: runtime values only; no structural clause that is a necessary condition and survives refactoring (DESIGN §4 C05)",
@@ -49,5 +68,5 @@ NOT_APPLICABLE = {
     "C14": "geometric equality through pen adapters over all call sequences: adapters may legally buffer/merge/re-emit calls, so no forwarding-shape rule is both necessary and refactoring-stable (DESIGN §4 C14)",
     "C18": "rendering equivalence of merged fonts: only weak structural facts (first-writer-wins cmap guard) exist, not enough for a necessary-condition clause (DESIGN §4 C18)",
 }
-for _p in ("C01", "C02", "C03", "C04", "C06", "C10", "C11", "C12", "C13", "C19"):
+for _p in ("C03", "C04", "C10", "C11", "C12", "C13", "C19"):
     NOT_APPLICABLE[_p] = _PENDING
